@@ -193,3 +193,8 @@ package transaction
 //@   requires forall i int :: 0 <= i && i < len(it.operations) ==> it.operations[i] != nil
 //@   modifies nothing
 //@   ensures[C05] result == (BIValid(it) && it.operations[it.position].IsDelete)
+
+// ---- C16: the transaction manager hands out read-write transactions without consulting the engine's read-only
+// flag, so it may be reached only through the engine facade's guarded BeginTransaction (calls through the
+// TransactionManager interface that can dispatch to it are included).
+//@ rule[C16] callers (*Manager).BeginTransaction : pkg/engine::(*EngineFacade).BeginTransaction
